@@ -116,10 +116,13 @@ var c09Deny = map[string]string{
 type c09Fn struct {
 	Pkg  string
 	Name string
-	Head string // text used in the operator position
-	Kind string // "", macro, function, generic-function …
-	Doc  int    // number of documented parameters
-	Max  int    // documented maximum number of arguments, -1 = no maximum (&rest, &body, &key)
+	Head string   // text used in the operator position
+	Kind string   // "", macro, function, generic-function …
+	Doc  int      // number of documented parameters
+	Max  int      // documented maximum number of arguments, -1 = no maximum (&rest, &body, &key)
+	Req  int      // documented required parameters (before the first lambda list keyword)
+	Opt  int      // documented &optional parameters
+	Keys []string // documented &key parameter names (without the colon)
 	skip func(i int) bool
 }
 
